@@ -144,6 +144,9 @@ func Exit(code int) {
 	if CatchExitAlways.Load() || (active.Load() && opts.CatchExit) {
 		panic(ExitPanic{code})
 	}
+	if active.Load() && subTrace != "" {
+		subFinish(code, "exit")
+	}
 	os.Exit(code)
 }
 
